@@ -63,7 +63,11 @@ Proof.
   assert (Hw : walk_resolve (S (length (mc_snippets cfg))) cfg [] [elem_node e] = Ok [elem_node e]).
   { unfold elem_node. destruct (se_name e) as [|c0 nm] eqn:En; [congruence|].
     cbn [walk_resolve]. rewrite Hsnip. reflexivity. }
-  rewrite Hw. cbn [bind transform_list].
+  rewrite Hw. cbn [bind].
+  rewrite LoremFill.transform_list_free.
+  2:{ unfold elem_node. cbn [forallb]. rewrite LoremFill.lorem_free_eq. unfold lorem_header.
+      destruct (se_name e) as [|c0 nm] eqn:En; [congruence|]. rewrite Hlorem. reflexivity. }
+  cbn [transform_forest].
   assert (Ht : transform_tree cfg None true false [] (elem_node e) =
                Ok (resolved_node (mc_reverse_attrs cfg) e, false, [])).
   { unfold elem_node at 1. rewrite ExpandTree.transform_tree_eq. cbv zeta. cbn [andb].
